@@ -192,9 +192,13 @@ impl<T> Future for SendFuture<'_, T> {
                     }
                 }
                 Poll::Pending => {
+                    #[cfg(feature = "verif")]
+                    crate::verif::at(crate::verif::SITE_POLL_PENDING);
                     if !this.sig.will_wake(cx.waker()) {
                         // Waker is changed and we need to update waker in the waiting list
                         if acquire_internal(this.internal).send_signal_exists(&this.sig) {
+                            #[cfg(feature = "verif")]
+                            crate::verif::at(crate::verif::SITE_POLL_EXISTS);
                             // signal is not shared with other thread yet so it's safe to
                             // update waker locally
                             // this.sig.register_waker(cx.waker());
@@ -359,10 +363,14 @@ impl<T> Future for ReceiveFuture<'_, T> {
                         }
                     }
                     Poll::Pending => {
+                        #[cfg(feature = "verif")]
+                        crate::verif::at(crate::verif::SITE_POLL_PENDING);
                         if !this.sig.will_wake(cx.waker()) {
                             // the Waker is changed and we need to update waker in the waiting
                             // list
                             if acquire_internal(this.internal).recv_signal_exists(&this.sig) {
+                                #[cfg(feature = "verif")]
+                                crate::verif::at(crate::verif::SITE_POLL_EXISTS);
                                 // signal is not shared with other thread yet so it's safe
                                 // to update waker locally
                                 this.sig.register_waker(cx.waker());
